@@ -623,6 +623,31 @@ func checkNative(t *rapid.T, hashBits, sigBits int) {
 	m = clone(base)
 	m.Sign = common.BytesToSign(sig65(r, s, sb[64]-27))
 	e.countOnly("native_twin_v_0_1", m)
+	// the last signature byte is part of the signature and not covered by the hash: every value other than the
+	// recovery id in its two spellings (id, 27+id) is a changed signature. All values k*27 + (0..3), the
+	// neighbours of the honest value and a generated handful of others are tried in every case.
+	tryV := map[byte]bool{}
+	for k := 0; k < 10; k++ {
+		for j := 0; j < 4; j++ {
+			if v := k*27 + j; v < 256 {
+				tryV[byte(v)] = true
+			}
+		}
+	}
+	for _, d := range []int{-2, -1, 1, 2, 4, 8, 35, 36, 128} {
+		tryV[byte(int(sb[64])+d)] = true
+	}
+	for i := 0; i < 6; i++ {
+		tryV[rapid.Byte().Draw(t, "otherV")] = true
+	}
+	for v := 0; v < 256; v++ {
+		if !tryV[byte(v)] || byte(v) == sb[64] || byte(v) == sb[64]-27 {
+			continue
+		}
+		m = clone(base)
+		m.Sign = common.BytesToSign(sig65(r, s, byte(v)))
+		e.mustReject("sigv", "native_sig_v_value", m, fmt.Sprintf("last signature byte %d replaced by %d", sb[64], v))
+	}
 	m = clone(base)
 	m.Source = upperHex(m.Source)
 	resign(rehash(m), k, "sigUpper")
